@@ -19,6 +19,16 @@ class Injected(Exception):
         self.idx = idx
 
 
+class InjectedOS(OSError):
+    """non-retryable fault of the OSError family (e.g. EIO): NOT in S3_RETRYABLE_DOWNLOAD_ERRORS, which lists
+    ConnectionError, socket.timeout and botocore's read errors only"""
+
+    def __init__(self, kind='', idx=-1):
+        OSError.__init__(self, 5, 'injected I/O error')
+        self.kind = kind
+        self.idx = idx
+
+
 class RetryableInjected(socket.timeout):
     """retryable stream fault (member of S3_RETRYABLE_DOWNLOAD_ERRORS through socket.timeout)"""
 
@@ -41,7 +51,9 @@ class Nondet:
 class Env:
     """shared logical clock, event log, numbering of environment calls and single-fault injection"""
 
-    def __init__(self, fault_at=-1, fault_phase=0, nd=None, faultable=None):
+    def __init__(self, fault_at=-1, fault_phase=0, nd=None, faultable=None, fault_at2=-1):
+        self.fault_at2 = fault_at2     # optional second fault (before the effect), for fault pairs
+        self.all_delivered = []
         self.clock = 0
         self.log = []
         self.n = 0
@@ -77,6 +89,13 @@ class Env:
             self.sched.point(kind + ':begin')
         if idx >= 0 and self.fault_phase == 0 and idx == self.fault_at:
             self.delivered = (idx, kind)
+            self.all_delivered.append((idx, kind))
+            self.stamp('fault', kind, idx)
+            raise Injected(kind, idx)
+        if idx >= 0 and self.fault_at2 >= 0 and idx == self.fault_at2:
+            if self.delivered is None:
+                self.delivered = (idx, kind)
+            self.all_delivered.append((idx, kind))
             self.stamp('fault', kind, idx)
             raise Injected(kind, idx)
         return idx
@@ -618,6 +637,10 @@ class RecSubscriber:
             self.env.ret('cb.on_progress', idx)
 
     def on_done(self, future, **kw):
+        if getattr(self, 'slow_done', False):
+            # a slow on_done callback: other threads can run while it is executing
+            if self.env.sched is not None:
+                self.env.sched.point('cb.on_done:begin')
         self.done += 1
         self.done_state = (future.done(), future._coordinator._done_event.is_set())
         self.env.stamp('cb', 'done', self.name)
@@ -680,8 +703,10 @@ class FakeBody:
         if self.fail_at is not None and self.pos >= self.fail_at:
             self.s3.stream_faults += 1
             env.stamp('stream-fault', self.retryable)
-            if self.retryable:
+            if self.retryable is True:
                 raise RetryableInjected('injected stream fault')
+            if self.retryable == 'os':
+                raise InjectedOS('s3.body_read', idx)
             raise Injected('s3.body_read', idx)
         if self.fail_at is not None and self.fail_at - self.pos < left:
             left = self.fail_at - self.pos
@@ -723,6 +748,7 @@ class FakeS3:
         self.deleted = []
         self.part_attempts = {}
         self.body_sizes = []       # bytes of every fully received request body, in completion order
+        self.chunked = False       # request.body handed to the request-created handlers is an AwsChunkedWrapper
 
     # -- plumbing
     def _begin(self, op, kw):
@@ -733,6 +759,10 @@ class FakeS3:
         self.env.ret('s3.' + op, idx)
 
     def _handlers(self, which, body, opname):
+        if self.chunked:
+            # botocore sends bodies with a trailing checksum wrapped in AwsChunkedWrapper: request.body is the wrapper
+            from botocore.httpchecksum import AwsChunkedWrapper
+            body = AwsChunkedWrapper(body)
         req = _Request(body)
         for name, h in which:
             h(request=req, operation_name=opname)
